@@ -1,10 +1,10 @@
 SPECIFICATION Spec
 CONSTANTS
-  K = 60000
-  Ks = {60000}
-  MaxConn = 1
-  UNIT = 5000
-  MaxT = 200000
+  K = 2000
+  Ks = {0, 2000, 7000}
+  MaxConn = 3
+  UNIT = 500
+  MaxT = 12000
   Dev = {}
   Record = FALSE
 INVARIANTS Inv_C10 Inv_C10_timer Inv_C10_detect Inv_C10_zero Inv_C10_queue
